@@ -668,7 +668,7 @@ func VH07f_chain() {
 	Rmax := verif.Param("R", 6)
 	lab := "C07/chain"
 	sock := vp.New("surveyor")
-	T := time.Second
+	T := 700 * time.Millisecond // not the default: a context that merely inherits it must still expire at it
 	verif.Assert(sock.SetOption(mangos.OptionSurveyTime, T) == nil, lab+"/set-survey-time")
 	side := vt.Listen(sock, "a")
 	p0 := side.Peer("r0")
@@ -676,7 +676,11 @@ func VH07f_chain() {
 	if verif.Choice("api", 2) == 1 {
 		c1, err := sock.OpenContext()
 		verif.Assert(err == nil, lab+"/open-context")
-		verif.Assert(c1.SetOption(mangos.OptionSurveyTime, T) == nil, lab+"/set-survey-time-ctx")
+		if verif.Choice("context-sets-its-own-survey-time", 2) == 1 {
+			verif.Assert(c1.SetOption(mangos.OptionSurveyTime, T) == nil, lab+"/set-survey-time-ctx")
+		} else {
+			verif.Reach("chain-context-inherits-survey-time")
+		}
 		s = &sv{name: "ctx", c: c1}
 	}
 	R := 1 + verif.Choice("surveys", Rmax)
